@@ -492,6 +492,7 @@ func (e *Engine) doCall(st *State, fr *Frame, instr *ssa.Call, c *ssa.CallCommon
 		if !ok {
 			panic(fmt.Sprintf("engine: invoke on %T", e.get(st, fr, c.Value)))
 		}
+		recv = e.concIface(st, recv)
 		if recv.typ == nil {
 			panic(goPanic{site: "nil pointer dereference (method call on nil interface " + c.Method.Name() + ")"})
 		}
@@ -1007,10 +1008,11 @@ func (e *Engine) typeAssert(st *State, fr *Frame, x *ssa.TypeAssert) Value {
 	if !ok {
 		panic(fmt.Sprintf("engine: TypeAssert on %T", e.get(st, fr, x.X)))
 	}
+	iv = e.concIface(st, iv)
 	var okk bool
 	var res Value
 	if it, isIface := x.AssertedType.Underlying().(*types.Interface); isIface {
-		okk = iv.typ != nil && implementsIface(iv.typ, it)
+		okk = iv.typ != nil && (implementsIface(iv.typ, it) || (iv.typ == e.opaqueErrT && it.NumMethods() == 1 && it.Method(0).Name() == "Error"))
 		if okk {
 			res = iv
 		} else {
